@@ -50,6 +50,7 @@ type Frame struct {
 	curPos    token.Pos
 	entryNames map[string]Value
 	dryGhostSets map[string]bool // ghost variables assigned during loop dry runs
+	callDepth int
 }
 
 func (f *Frame) lookupLocal(name string, pos token.Pos) types.Object {
@@ -119,6 +120,11 @@ func (x *X) readGlobal(st *State, o *types.Var) Value {
 	v := Value{T: o.Type(), C: make([]*Term, len(l.Comps))}
 	for i, comp := range l.Comps {
 		v.C[i] = x.c.heap(st, globalName(o)+comp.Path, comp.Sort)
+	}
+	if isErrorType(o.Type()) && (strings.HasPrefix(o.Name(), "Err") || strings.HasPrefix(o.Name(), "ERR") || o.Name() == "EOF") {
+		// sentinel errors are initialised once with errors.New and never reassigned
+		x.c.assumption("package-level sentinel errors (ErrX, io.EOF) are non-nil")
+		x.c.assume(TTrue, Not(Eq(v.C[0], BVInt(0, 64))))
 	}
 	return v
 }
